@@ -60,7 +60,7 @@ class Matrix(BaseForm, Counted):
         self._domains = None
         self._hash = None
         self._repr = (
-            f"Matrix({self._ufl_function_spaces[0]!r} "
+            f"Matrix({self._ufl_function_spaces[0]!r}, "
             f"{self._ufl_function_spaces[1]!r}, {self._count!r})"
         )
 
